@@ -120,6 +120,8 @@ def iv_rem(a, b):
     m = b.lo
     if math.isinf(a.lo) or math.isinf(a.hi):
         return Iv(-m, m, True)
+    if a.is_point():
+        return Iv(math.fmod(a.lo, m))
     if a.lo >= 0:
         k = math.floor(a.lo / m)
         if a.hi < (k + 1) * m:
@@ -137,6 +139,11 @@ def iv_rem_euclid(a, b):
     m = b.lo
     if math.isinf(a.lo) or math.isinf(a.hi):
         return Iv(0.0, m, True)
+    if a.is_point():
+        r = math.fmod(a.lo, m)          # Rust: let r = self % rhs; if r < 0.0 { r + rhs.abs() } else { r }
+        if r < 0.0:
+            r = r + abs(m)
+        return Iv(r)
     k = math.floor(a.lo / m)
     if a.hi < (k + 1) * m:
         return Iv(max(0.0, dn(dn(a.lo - k * m))), min(m, up(up(a.hi - k * m))), a.nan)
